@@ -200,7 +200,14 @@ def canon_model(ans):
 # oracle: the property read literally
 # ----------------------------------------------------------------------------
 def oracle(case):
-    """Return None or a dict describing the first violated sentence."""
+    """Return None or a dict describing the first violated sentence.  Two passes: look-ups repair the
+    number cache of the real collection, so a pass that probes get()/[] after every operation can hide a
+    stale-cache defect from the operations that follow; the first pass therefore observes nothing but the
+    objects themselves, the second adds the look-up probes."""
+    return oracle_pass(case, False) or oracle_pass(case, True)
+
+
+def oracle_pass(case, probe_lookups):
     w = World(case)
     nrange = range(-1, max(case["nums"] + [1]) + 12)
     for i, op in enumerate(case["ops"]):
@@ -227,7 +234,7 @@ def oracle(case):
             if int(r[2:]) in nums:
                 return {"sentence": "next_number offers a free number", "at_op": i, "op": op_text(op), "got": r}
         # look-ups are current
-        for n in nrange:
+        for n in (nrange if probe_lookups else ()):
             exp = [m for m in members if w.number(m) == n]
             got = w.coll.get(n)
             g = None if got is None else w.oid(got)
@@ -312,6 +319,16 @@ def gen_case(rng, idx, freestanding_collisions=False):
                 return None if rng.random() < 0.4 else rng.randint(-1, hi + 3)
             op = (k, b(), b(), rng.choice([None, None, 1, 2, -1, -2, 3, 0]))
         ops.append(op)
+        # probe right after a number changed hands, where a stale cache would show: ask for exactly
+        # that number (offered numbers must be free, look-ups must be current)
+        if k == "setnum" and rng.random() < 0.5:
+            ops.append(rng.choice([("request_number", num, rng.choice([1, 1, 2, 3])), ("get", num),
+                                   ("check_number", num), ("get", nums[o])]))
+        elif k in ("extend", "iadd", "append", "append_renumber") and rng.random() < 0.35:
+            cand = op[1][0] if isinstance(op[1], list) and op[1] else (op[1] if isinstance(op[1], int) else None)
+            if cand is not None:
+                ops.append(rng.choice([("request_number", nums[cand], rng.choice([1, 2])), ("get", nums[cand]),
+                                       ("next_number", 1)]))
     return {"kind": kind, "clink": clink, "nums": nums, "types": types, "members": members, "ops": ops}
 
 
